@@ -58,6 +58,17 @@ fn real_main() {
     let a = |i: usize| args.get(i).map(|s| s.as_str()).unwrap_or("");
     let code = match a(1) {
         "selftest-docs" => selftest::docs(a(2).parse().unwrap_or(50)),
+        "dump-doc" => {
+            // pdfsim dump-doc <family> <k> <out path>
+            let fam = match a(2) {
+                "two_leaf" => families::Family::TwoLeaf,
+                "cyclic_parents" => families::Family::CyclicParents,
+                _ => families::Family::Rich,
+            };
+            let mut pool = docs::Pool::new(&repo, env_seed());
+            let d = pool.generated(&fam, a(3).parse().unwrap_or(0));
+            std::fs::write(a(4), &d.bytes[..]).map(|_| 0).unwrap_or(2)
+        }
         "--describe" => {
             // pdfsim --describe <id> <tier> <seed> <run>
             match make_check(a(2)) {
